@@ -149,7 +149,7 @@ func (t *Typedef) resolve(d *typeDictionary) []error {
 		return nil
 	}
 	if t.resolving {
-		return []error{fmt.Errorf("%s: typedef %s is defined in terms of itself", Source(t), t.Name)}
+		return []error{fmt.Errorf("%s: typedef %s is defined in terms of itself", Source(t.Type), t.Name)}
 	}
 	t.resolving = true
 	defer func() { t.resolving = false }()
